@@ -637,3 +637,8 @@ mod tests {
         assert!(output.is_empty())
     }
 }
+
+#[cfg(kani)]
+pub(crate) mod verif {
+    include!(concat!(env!("LIBP2P_VERIF"), "/hooks/swarm_connection_pool_dial_ranker.rs"));
+}
